@@ -89,7 +89,7 @@ def unit_under_config(prop, unit_name, n_cases=6, exclude=(), doc=None, quick=16
             if draw(st.integers(0, 3)) == 0 and "LC_ALL" not in exclude:
                 cfg = configrun.with_ascii_locale(cfg)
             if closed_stdout and draw(st.integers(0, 2)) == 0:
-                cfg["stdout"] = "closed"       # a daemonised process: only for code that has no business printing
+                cfg["stdout"] = draw(st.sampled_from(["closed", "broken"]))   # daemonised process / dead pipe: only for code that has no business printing
             return {"cases": [draw(base.strategy()) for _ in range(draw(st.integers(2, n_cases)))], "config": cfg}
         return draw_case()
 
